@@ -235,6 +235,22 @@ async fn spawn(engine: nu::Engine, store: Store, task: GeneratorTask) {
         // Wrap stream in Option to allow mutable access without moving it
         let mut stream = Some(stream);
         let iter = std::iter::from_fn(move || {
+            #[cfg(xs_verif)]
+            if crate::verif::active() {
+                // under simulation the worker never blocks on its input: it polls once, and
+                // parks at a sync point until something else has made progress
+                if let Some(ref mut stream) = stream {
+                    loop {
+                        let polled = handle.block_on(async {
+                            futures::future::poll_immediate(stream.next()).await
+                        });
+                        match polled {
+                            Some(item) => return item,
+                            None => crate::verif::poll_point("gen.input"),
+                        }
+                    }
+                }
+            }
             if let Some(ref mut stream) = stream {
                 handle.block_on(async move { stream.next().await })
             } else {
@@ -255,7 +271,16 @@ async fn spawn(engine: nu::Engine, store: Store, task: GeneratorTask) {
 
     let handle = tokio::runtime::Handle::current().clone();
 
+    #[cfg(xs_verif)]
+    crate::verif::expect_thread("gen");
     std::thread::spawn(move || {
+        #[cfg(xs_verif)]
+        let _verif_scope = crate::verif::thread_scope("gen");
+        #[cfg(xs_verif)]
+        let (engine, input_pipeline, task, store, handle) =
+            (engine, input_pipeline, task, store, handle);
+        #[cfg(xs_verif)]
+        crate::verif::point("gen.begin", task.id.to_u128());
         let pipeline = engine
             .eval(input_pipeline, task.expression.clone())
             .unwrap();
